@@ -168,7 +168,7 @@ def run_property(prop, tier, seed, args):
     for fn in index.STANDINS.get(prop, []):
         standins.append(fn(seed, tier))
 
-    known = [k for k in load_known_findings() if k["property"] == prop]
+    known = [k for k in load_known_findings() if k["property"] == prop or prop in k.get("also", [])]
     baseline = load_baseline().get(prop, {})
     violations = []
     known_lines = []
@@ -261,8 +261,10 @@ def run_property(prop, tier, seed, args):
         "seed": seed,
         "level": "proof",
         "coverage": {
-            "obligations": ob_total,
+            # obligations covered by a listed known finding are reported separately, not as discharged
+            "obligations": ob_total - KNOWN_COUNT[0],
             "discharged": ob_proved,
+            "obligations_refuted_by_known_findings": KNOWN_COUNT[0],
             "checker_cmd": f"./check {prop} --tier {tier}",
             "trusted_base": sorted(a for a in assumptions if a.startswith("external:") or a.startswith("record:"))
             + index.TRUSTED.get(prop, []),
@@ -319,12 +321,38 @@ def replay_path(prop, obligation):
     return os.path.join("replays", f"{prop}-{safe}.json")
 
 
-def matches_known(k, obligation, inputs):
+def matches_known(k, obligation, case):
+    """A listed finding covers exactly: this obligation, in the cases its `case` pattern names."""
+    import re
+
     if k.get("status") != "known":
         return False
     if k["obligation"] != obligation:
         return False
+    pat = k.get("case")
+    if pat is not None and not re.search(pat, case or ""):
+        return False
     return True
+
+
+_witness_cache = {}
+KNOWN_COUNT = [0]  # (case, obligation) pairs refuted on this run that a listed finding covers
+
+
+def witness_still_fails(k):
+    """Re-runs the finding's native witness against the real code (module:function returning True while the
+    defect is present)."""
+    w = k.get("witness_fn")
+    if not w:
+        return True
+    if w not in _witness_cache:
+        modname, fn = w.split(":")
+        try:
+            _witness_cache[w] = bool(getattr(importlib.import_module(modname), fn)())
+        except Exception as e:  # the witness itself broke: do not hide anything behind it
+            print(f"known-finding witness {w} raised {e!r}", file=sys.stderr)
+            _witness_cache[w] = False
+    return _witness_cache[w]
 
 
 def handle_refutation(prop, r, ref, res, confirmed, known, baseline, violations, known_lines, undecided):
@@ -334,10 +362,12 @@ def handle_refutation(prop, r, ref, res, confirmed, known, baseline, violations,
            "inputs": ref["inputs"], "awaits": ref.get("awaits"), "solver_goal": ref["goal"],
            "solver_model": ref["model"], "native_replay": res, "confirmed_natively": confirmed}
     for k in known:
-        if matches_known(k, ob, ref["inputs"]):
-            # a known finding: the region hypothesis should have removed it; reaching here means a
-            # different failing input of the same obligation -> reported normally below
-            pass
+        if matches_known(k, ob, ref.get("case")) and witness_still_fails(k):
+            line = f"KNOWN-FINDING: property={prop} {k['what']}"
+            if line not in known_lines:
+                known_lines.append(line)
+            KNOWN_COUNT[0] += 1
+            return
     if confirmed:
         with open(os.path.join(ROOT, path), "w") as f:
             json.dump(doc, f, indent=1, default=str)
@@ -345,7 +375,15 @@ def handle_refutation(prop, r, ref, res, confirmed, known, baseline, violations,
         if line not in violations:
             violations.append(line)
         return
-    was_proved = baseline.get(ob) == "proved"
+    bkey = ob + (f" [{ref.get('case')}]" if ref.get("case") else "")
+    was_proved = baseline.get(bkey) == "proved"
+    if not was_proved and "::exc.undeclared:" in ob:
+        # an exception class the contract does not allow: at baseline no path raised it (the obligation
+        # only exists when violated); it counts as proved there if everything else of that function/case was
+        pref = ob.split("::")[0] + "::"
+        suffix = f" [{ref.get('case')}]" if ref.get("case") else ""
+        mine = [v for k_, v in baseline.items() if k_.startswith(pref) and k_.endswith(suffix)]
+        was_proved = bool(mine) and all(v == "proved" for v in mine)
     if was_proved:
         doc["note"] = ("obligation proved at baseline is refuted on this tree; the solver's counterexample "
                        "could not be realised natively (pre-state or interference not reachable by replay)")
@@ -406,8 +444,9 @@ def write_baseline(prop, reports, extra):
         for name, o in r["obligations"].items():
             if name.endswith("::__canary__"):
                 continue
-            prev = cur.get(name, "proved")
-            cur[name] = o["verdict"] if prev == "proved" else prev
+            key = name + (f" [{r['case']}]" if r.get("case") else "")
+            prev = cur.get(key, "proved")
+            cur[key] = o["verdict"] if prev == "proved" else prev
     for e in extra:
         cur[e["name"]] = e["verdict"]
     data[prop] = cur
